@@ -189,25 +189,34 @@ def protocol_time_course_residual(
         msg = "No protocol supplied"
         raise ValueError(msg)
 
-    res = (
-        Simulator(
-            model,
-            integrator=settings.integrator,
-        )
-        .simulate_protocol_time_course(
-            protocol=protocol,
-            time_points=settings.data.index,
-        )
-        .get_result()
-    )
-
-    match val := res.value:
-        case Simulation():
-            return settings.loss(
-                val.get_combined().loc[:, cast(list, settings.data.columns)],
+    # The protocol changes parameters of the model shared by all evaluations. Put them
+    # back afterwards, so that the next evaluation does not start from the values of
+    # this one's last protocol step
+    touched = {
+        k: v for k, v in model.get_parameter_values().items() if k in protocol.columns
+    }
+    try:
+        res = (
+            Simulator(
+                model,
+                integrator=settings.integrator,
             )
-        case _:
-            return cast(float, np.inf)
+            .simulate_protocol_time_course(
+                protocol=protocol,
+                time_points=settings.data.index,
+            )
+            .get_result()
+        )
+
+        match val := res.value:
+            case Simulation():
+                return settings.loss(
+                    val.get_combined().loc[:, cast(list, settings.data.columns)],
+                )
+            case _:
+                return cast(float, np.inf)
+    finally:
+        model.update_parameters(touched)
 
 
 def steady_state(
